@@ -483,7 +483,10 @@ fn clone_from_stage(ctx: &Ctx, cfg: &Cfg) -> JobOut {
 fn ambient_stage(ctx: &Ctx, kind: Kind) -> JobOut {
     let mut out = JobOut::default();
     let periods: &[usize] = if kind.nperiods() == 0 { &[1] } else { &[2, 32, 33, 64, 90] };
-    for &p in periods {
+    // variant 1: the FIRST input is NaN; variant 2: two inputs, reset(), then +inf as the first input after it
+    // (a fallback path for a non-finite first value is the only reader of some ambient state)
+    let pv: Vec<(usize, u8)> = periods.iter().flat_map(|&p| [(p, 0u8), (p, 1), (p, 2)]).filter(|(p, v)| *v == 0 || *p <= 33).collect();
+    for &(p, variant) in &pv {
         if ctx.out_of_time() {
             out.stats.capped.push("time cap in ambient stage".into());
             return out;
@@ -503,7 +506,16 @@ fn ambient_stage(ctx: &Ctx, kind: Kind) -> JobOut {
                 Op::Reset => Op::Reset,
             }
         };
-        let stream: Vec<Op> = (0..len).map(|i| alpha[(i * 5 + i / 3) % alpha.len()]).chain((0..len).map(|i| tiny(&alpha[(i * 7 + 2) % alpha.len()]))).collect();
+        let mut stream: Vec<Op> = (0..len).map(|i| alpha[(i * 5 + i / 3) % alpha.len()]).chain((0..len).map(|i| tiny(&alpha[(i * 7 + 2) % alpha.len()]))).collect();
+        let bad = |x: f64| if kind.has_scalar() { Op::S(x) } else { Op::B(Bar { o: x, h: x, l: x, c: x, v: 1.0 }) };
+        match variant {
+            1 => stream.insert(0, bad(f64::NAN)),
+            2 => {
+                stream.insert(2, Op::Reset);
+                stream.insert(3, bad(f64::INFINITY));
+            }
+            _ => {}
+        }
         let len = stream.len();
         let noise: Vec<Op> = (0..len / 2).map(|i| alpha[(i * 3 + 1) % alpha.len()]).collect();
         let run = |c: &Cfg, ops: &[Op]| -> Vec<Out> {
@@ -709,6 +721,17 @@ fn big_window_stage(ctx: &Ctx, kind: Kind, steps: usize) -> JobOut {
 /// outputs must have the baseline digest.
 const SWEEP_MAX: usize = 600;
 
+/// every period 1..=600, then a few large ones on both sides of 2^12 .. 2^16 (a table or pool sized by the
+/// first or the largest user so far)
+fn sweep_periods(kind: Kind) -> Vec<usize> {
+    let mut v: Vec<usize> = (1..=SWEEP_MAX).collect();
+    v.extend([1024usize, 4097]);
+    if !matches!(kind, Kind::Mad | Kind::Cci | Kind::Er) {
+        v.extend([8192usize, 16384, 16385, 20000, 32769, 65537, 100003]);
+    }
+    v
+}
+
 fn sweep_cfg(kind: Kind, p: usize) -> Cfg {
     if kind.has_mult() {
         Cfg::pm(kind, p, 2.0)
@@ -748,7 +771,7 @@ pub fn digest_main(kind_name: &str, order: &str) -> i32 {
         Some(k) => k,
         None => return 2,
     };
-    let qs: Vec<usize> = if order == "desc" { (1..=SWEEP_MAX).rev().collect() } else { (1..=SWEEP_MAX).collect() };
+    let qs: Vec<usize> = if order == "desc" { sweep_periods(kind).into_iter().rev().collect() } else { sweep_periods(kind) };
     for q in qs {
         match sweep_digest(kind, q) {
             Some(d) => println!("{} {:016x}", q, d),
@@ -773,7 +796,7 @@ fn fresh_process_digests(kind: Kind, order: &str) -> Result<std::collections::Ha
             }
         }
     }
-    if m.len() != SWEEP_MAX {
+    if m.len() != sweep_periods(kind).len() {
         return Err(format!("digest helper printed {} lines", m.len()));
     }
     Ok(m)
@@ -798,15 +821,18 @@ fn period_sweep_stage(kind: Kind, machinery: &mut Vec<String>) -> JobOut {
                 .with("setup", how),
         );
     };
-    for q in 1..=SWEEP_MAX {
+    for q in sweep_periods(kind) {
         out.stats.evaluations += 1;
         if asc[&q] != desc[&q] {
-            report(&mut out, q, desc[&q].clone(), &asc[&q], "a fresh process running periods 600 down to 1 vs a fresh process running periods 1 up to 600".into());
+            report(&mut out, q, desc[&q].clone(), &asc[&q], "a fresh process running the periods of the sweep (1..=600, then 1024 .. 100003) in descending order vs a fresh process running them in ascending order".into());
             return out;
         }
     }
     for p in [14usize, 9, 20, 3] {
-        for q in 1..=SWEEP_MAX {
+        for q in sweep_periods(kind) {
+            if q > SWEEP_MAX && p != 14 {
+                continue;
+            }
             out.stats.traces += 2;
             out.stats.transitions += (p + q + 6) as u64;
             out.stats.evaluations += 1;
@@ -1181,7 +1207,7 @@ pub fn run(ctx: &Ctx) -> CheckResult {
     res.require(res.out.stats.counters.get("schedules_threads").copied().unwrap_or(0) > 1 || res.out.failed(), "no multi-thread schedule was executed");
     res.rule = "case = (configuration, history h at which the clone is taken, schedule): objects {original after h, its clone, unrelated instance with other parameters} each get a continuation; a schedule = interleaving of their operations + assignment of every step to a real OS worker thread; oracle = every output bit-identical to a fresh instance replaying that object's own operations on the main thread; non-trivial = schedule executed on >= 1 worker thread other than main".into();
     res.bounds = format!(
-        "all 22 indicators, periods {{1,3}}, each part on the exact alphabet and on an inexact one (x -> 0.7x+0.013, so that summation order and buffer layout are observable under bit-equality); every history in seq(4 symbols, {hist_depth}) as clone point; (A) all {} merges of 3x{cont_len} ops on one thread; (B) histories up to length {thread_hist_depth}: 3 canonical merges x all worker assignments up to renaming on {k_workers} real threads x clone taken on worker 0/1; (B') for the empty history (thorough: histories up to length 1) the FULL product of all merges x all worker assignments x clone worker; (C) all 16x16 continuation pairs for original/clone under 3 sequential schedules; (G) Default::default() vs new(reported parameters) bit for bit; the merges also on an alphabet containing zeros; (F) ambient state: instances with the same parameters and history (periods 2, 32, 33, 64, 90) built first / after others were used past their wrap-around and dropped / as lock-step siblings / on another thread must agree bit for bit; (E') periods 9/14/20: clone_from into targets with a falling / rising / flat / tick-walk past vs source.clone() on falling / rising / tick-walk continuations; (E) Clone::clone_from between instances with different parameters and histories (copy must replay like the source, source untouched); (D) periods 1..5(6): clone after every history up to depth 2(3) and after every prefix up to 2n+2 of two default streams, every continuation of n+2 inputs over 3 symbols for the clone while the original is fed different inputs in between; (I) for every period q in 1..=600 the outputs of a fresh instance that follows an instance of period 3 / 9 / 14 / 20 in this process have the digest computed in two fresh processes (periods ascending / descending); (H) period 8192: twin instances and a clone taken at the full window agree bit for bit on a quiet thread, and (SAMPLING) an instance fed while twelve other threads keep large-window instances busy (eight of the same kind); plus {rounds} free-running 16-thread rounds (SAMPLING, not part of the exhaustive claim)",
+        "all 22 indicators, periods {{1,3}}, each part on the exact alphabet and on an inexact one (x -> 0.7x+0.013, so that summation order and buffer layout are observable under bit-equality); every history in seq(4 symbols, {hist_depth}) as clone point; (A) all {} merges of 3x{cont_len} ops on one thread; (B) histories up to length {thread_hist_depth}: 3 canonical merges x all worker assignments up to renaming on {k_workers} real threads x clone taken on worker 0/1; (B') for the empty history (thorough: histories up to length 1) the FULL product of all merges x all worker assignments x clone worker; (C) all 16x16 continuation pairs for original/clone under 3 sequential schedules; (G) Default::default() vs new(reported parameters) bit for bit; the merges also on an alphabet containing zeros; (F) ambient state: instances with the same parameters and history (periods 2, 32, 33, 64, 90) built first / after others were used past their wrap-around and dropped / as lock-step siblings / on another thread must agree bit for bit; (E') periods 9/14/20: clone_from into targets with a falling / rising / flat / tick-walk past vs source.clone() on falling / rising / tick-walk continuations; (E) Clone::clone_from between instances with different parameters and histories (copy must replay like the source, source untouched); (D) periods 1..5(6): clone after every history up to depth 2(3) and after every prefix up to 2n+2 of two default streams, every continuation of n+2 inputs over 3 symbols for the clone while the original is fed different inputs in between; (I) for every period q in 1..=600 (and 1024, 4097, 8192, 16384, 16385, 20000, 32769, 65537, 100003 for the O(1)-per-step indicators) the outputs of a fresh instance that follows an instance of period 3 / 9 / 14 / 20 in this process have the digest computed in two fresh processes (periods ascending / descending); (H) period 8192: twin instances and a clone taken at the full window agree bit for bit on a quiet thread, and (SAMPLING) an instance fed while twelve other threads keep large-window instances busy (eight of the same kind); plus {rounds} free-running 16-thread rounds (SAMPLING, not part of the exhaustive claim)",
         merges(&vec![cont_len; 3]).len()
     );
     let mut assumptions = vec![
